@@ -620,7 +620,7 @@ def run(ctx):
         xval += kept + broken
         del cases
     # code -> spec: random larger graphs, decided by TLC alone
-    items = random_items(ctx, ctx.pick(12000, 40000), ctx.pick([5, 6, 7, 8, 9], [5, 6, 7, 8, 9, 10, 12, 14]))
+    items = random_items(ctx, ctx.pick(6000, 40000), ctx.pick([5, 6, 7, 8, 9], [5, 6, 7, 8, 9, 10, 12, 14]))
     rnd = []
     import json
     for item, o in zip(items, pmap(_observe_item, items, chunk=32)):
